@@ -181,13 +181,15 @@ def run(tier):
                     if not (vi == vf and np.array_equal(gi, gf) and ci_ == -vf and np.array_equal(cgi, -gf)):
                         ck.violation("an integer-typed parameter vector gives the value and gradient of the equal float vector",
                                      {**ident, "class": cname, "gradient_float": gf, "gradient_integer": gi}, site=f"{cname}.gradient:dtype")
+            import copy as _copy
             for cname, obj in objs:
                 th_ = theta.copy()
+                ref_ = _copy.deepcopy(obj)           # (the reference values come from a copy that is called only once)
                 with np.errstate(all="ignore"):
                     v_a = float(obj(th_))
                     th_ += 0.25
                     v_b, g_b = float(obj(th_)), np.array(obj.gradient(th_), dtype=float)
-                    f_b, f_g = float(obj(th_.copy())), np.array(obj.gradient(th_.copy()), dtype=float)
+                    f_b, f_g = float(ref_(th_.copy())), np.array(ref_.gradient(th_.copy()), dtype=float)
                     th_ -= 0.25
                     v_c = float(obj(th_))
                 if not (v_b == f_b and np.array_equal(g_b, f_g) and v_c == v_a):
